@@ -1,6 +1,6 @@
 (* Lemmas for C08 (Model/Acct.v, Model/AcctSpec.v, Model/Gigaword.v). *)
 From Coq Require Import ZArith NArith List Bool Lia ZifyN ZifyNat ZifyBool.
-From Verif Require Import Model.Gigaword Model.Acct Model.AcctSpec.
+From Verif Require Import Base.Check Model.Gigaword Model.Acct Model.AcctSpec.
 Import ListNotations.
 Local Open Scope N_scope.
 
@@ -29,4 +29,1079 @@ Proof.
       * apply N.div_str_pos. unfold GMASK, G32 in *. lia.
       * apply N.div_lt_upper_bound; [discriminate|]. exact Hv.
     + apply N.ltb_ge in E. unfold GMASK, G32 in *. lia.
+Qed.
+
+(* ---------------------------------------------------------------- list helpers *)
+Lemma Forall_filter' {A} (P : A -> Prop) f l : Forall P l -> Forall P (filter f l).
+Proof. induction 1; cbn; [constructor|]. destruct (f x); auto. Qed.
+
+Lemma Forall_put_sess (P : sess -> Prop) s l : P s -> Forall P l -> Forall P (put_sess s l).
+Proof.
+  intros Hs. induction 1 as [|h t Hh Ht IH]; cbn; [repeat constructor; auto|].
+  destruct (s_id s <? s_id h); [repeat constructor; auto|].
+  destruct (s_id s =? s_id h); constructor; auto.
+Qed.
+
+Lemma Forall_find {A} (P : A -> Prop) f l a : Forall P l -> find f l = Some a -> P a.
+Proof. intros H E. apply find_some in E. rewrite Forall_forall in H. apply H. tauto. Qed.
+
+Lemma Forall_pick {A} (P : A -> Prop) key order : forall l : list A, Forall P l -> Forall P (pick key order l).
+Proof.
+  induction order as [|k tl IH]; intros l H; cbn; [exact H|].
+  destruct (find _ l) eqn:E; [|auto].
+  constructor; [eapply Forall_find; eauto|]. apply IH. apply Forall_filter'. exact H.
+Qed.
+
+Lemma Forall_number {A} (P : A -> Prop) l : forall i, Forall P l -> Forall (fun e => P (snd e)) (number i l).
+Proof. induction l; intros i H; cbn; [constructor|]. inversion H; subst. constructor; auto. Qed.
+
+Lemma Forall_pick_pos {A} (P : A -> Prop) order (l : list A) : Forall P l -> Forall P (pick_pos order l).
+Proof.
+  intros H. unfold pick_pos. apply Forall_map.
+  apply (Forall_pick (fun e => P (snd e))). apply Forall_number. exact H.
+Qed.
+
+(* ---------------------------------------------------------------- generic preservation *)
+Section Pres.
+  Variables (PS : sess -> Prop) (PQ : req -> Prop) (PE : wrec * bool -> Prop).
+  Hypothesis HQE : forall q a, PQ q -> PE (wire q, a).
+
+  Record Inv (x : ms) : Prop := mkInv {
+    i_sess : Forall PS (x_sess x);
+    i_files : Forall PS (x_files x);
+    i_pend : Forall (fun p => PQ (p_req p)) (x_pend x);
+    i_chan : Forall (fun e => PQ (snd e)) (x_chan x);
+    i_pjson : forall l, x_pjson x = Some l -> Forall (fun p => PQ (p_req p)) l;
+    i_ev : Forall PE (x_ev x) }.
+
+  Definition InvR (r : ms + ms) : Prop := match r with inl y => Inv y | inr y => Inv y end.
+
+  Ltac inv_tac := intros [? ? ? ? ? ?]; constructor; cbn in *; auto.
+
+  Lemma Inv_set_c v x : Inv x -> Inv (set_c v x). Proof. inv_tac. Qed.
+  Lemma Inv_set_ret v x : Inv x -> Inv (set_ret v x). Proof. inv_tac. Qed.
+  Lemma Inv_mark b m x : Inv x -> Inv (mark b m x). Proof. unfold mark. destruct b; [inv_tac|auto]. Qed.
+  Lemma Inv_set_sess f x : (Forall PS (x_sess x) -> Forall PS (f (x_sess x))) -> Inv x -> Inv (set_sess f x).
+  Proof. intros Hf. inv_tac. Qed.
+  Lemma Inv_set_files f x : (Forall PS (x_files x) -> Forall PS (f (x_files x))) -> Inv x -> Inv (set_files f x).
+  Proof. intros Hf. inv_tac. Qed.
+  Lemma Inv_set_pend f x :
+    (Forall (fun p => PQ (p_req p)) (x_pend x) -> Forall (fun p => PQ (p_req p)) (f (x_pend x))) -> Inv x -> Inv (set_pend f x).
+  Proof. intros Hf. inv_tac. Qed.
+  Lemma Inv_set_chan f x :
+    (Forall (fun e => PQ (snd e)) (x_chan x) -> Forall (fun e => PQ (snd e)) (f (x_chan x))) -> Inv x -> Inv (set_chan f x).
+  Proof. intros Hf. inv_tac. Qed.
+  Lemma Inv_set_pjson v x :
+    (forall l, v = Some l -> Forall (fun p => PQ (p_req p)) l) -> Inv x -> Inv (set_pjson v x).
+  Proof. intros Hf. inv_tac. Qed.
+
+  Lemma Inv_ctick x : Inv x -> InvR (ctick x).
+  Proof. intros H. unfold ctick. destruct (x_c x =? 1); cbn; auto using Inv_set_c. Qed.
+
+  Lemma InvR_bind r f : InvR r -> (forall y, Inv y -> InvR (f y)) -> InvR (bind r f).
+  Proof. destruct r; cbn; auto. Qed.
+
+  Lemma InvR_fold_m {A} (f : A -> ms -> ms + ms) l :
+    forall x, (forall a y, In a l -> Inv y -> InvR (f a y)) -> Inv x -> InvR (fold_m f l x).
+  Proof.
+    induction l as [|a tl IH]; intros x Hf Hx; cbn; [exact Hx|].
+    pose proof (Hf a x (or_introl eq_refl) Hx) as H1. destruct (f a x); cbn in H1; [|exact H1].
+    apply IH; [|exact H1]. intros; apply Hf; [right|]; auto.
+  Qed.
+
+  Lemma Inv_raw_send q a x : PQ q -> Inv x -> Inv (raw_send q a x).
+  Proof. intros Hq. inv_tac. apply Forall_app. split; auto. Qed.
+
+  Lemma Inv_enqueue q x : PQ q -> Inv x -> Inv (enqueue q x).
+  Proof. intros Hq. inv_tac; apply Forall_app; split; auto. Qed.
+
+  Lemma Inv_send q a x : PQ q -> Inv x -> Inv (send q a x).
+  Proof. intros Hq Hx. unfold send. destruct a; auto using Inv_raw_send, Inv_enqueue. Qed.
+
+  Lemma Inv_do_start s id dn x :
+    (find_sess s (x_sess x) = None -> PS (mkS s id false 0 0 0) /\ PQ (mkQ ST_START s id 0 0 0)) ->
+    Inv x -> InvR (do_start s id dn x).
+  Proof.
+    intros Hn Hx. unfold do_start. destruct (find_sess s (x_sess x)); [cbn; apply Inv_set_ret; exact Hx|].
+    destruct (Hn eq_refl) as [Hs Hq].
+    apply InvR_bind.
+    - apply Inv_ctick. repeat apply Inv_mark. apply Inv_send; [exact Hq|].
+      apply Inv_set_sess; [|exact Hx]. apply Forall_put_sess; exact Hs.
+    - intros y Hy. apply Inv_ctick. apply Inv_set_files; [|exact Hy]. apply Forall_put_sess; exact Hs.
+  Qed.
+
+  Lemma Inv_do_stop s cause cin cout dn x :
+    (forall se0, PS se0 -> s_id se0 = s ->
+       PS (mkS s (s_ident se0) true cause (s_lin se0) (s_lout se0)) /\ PQ (mkQ ST_STOP s (s_ident se0) cin cout cause)) ->
+    Inv x -> InvR (do_stop s cause cin cout dn x).
+  Proof.
+    intros Hn Hx. unfold do_stop. destruct (find_sess s (x_sess x)) as [se0|] eqn:E; [|cbn; apply Inv_set_ret; exact Hx].
+    assert (Hse : PS se0) by (eapply Forall_find; [apply (i_sess _ Hx)|exact E]).
+    assert (Hid : s_id se0 = s) by (apply find_some in E; apply N.eqb_eq; tauto).
+    destruct (Hn se0 Hse Hid) as [Hs Hq]. cbn [s_ident] in *.
+    apply InvR_bind.
+    - apply Inv_ctick. apply Inv_set_files; [apply Forall_put_sess; exact Hs|].
+      apply Inv_set_sess; [apply Forall_put_sess; exact Hs|exact Hx].
+    - intros y Hy. apply InvR_bind.
+      + apply Inv_ctick. apply Inv_send; [exact Hq|exact Hy].
+      + intros z Hz. apply Inv_ctick. apply Inv_mark.
+        apply Inv_set_files; [apply Forall_filter'|]. apply Inv_set_sess; [apply Forall_filter'|exact Hz].
+  Qed.
+
+  Lemma Inv_interim_one cin cout dn se x :
+    (forall h, PS h -> PQ (mkQ ST_INTERIM (s_id h) (s_ident h) cin cout 0) /\
+                       PS (mkS (s_id h) (s_ident h) (s_pend h) (s_cause h) cin cout)) ->
+    PS se -> Inv x -> InvR (interim_one cin cout dn se x).
+  Proof.
+    intros Hn Hse Hx. unfold interim_one. apply Inv_ctick.
+    assert (Hs : Inv (send (mkQ ST_INTERIM (s_id se) (s_ident se) cin cout 0)
+                           (acked dn (mkQ ST_INTERIM (s_id se) (s_ident se) cin cout 0)) x))
+      by (apply Inv_send; [apply Hn; exact Hse|exact Hx]).
+    destruct (acked dn _); [|exact Hs].
+    apply Inv_set_sess; [|exact Hs]. intros H. apply Forall_map. eapply Forall_impl; [|exact H].
+    intros h Hh. cbn. destruct (s_id h =? s_id se); [apply Hn; exact Hh|exact Hh].
+  Qed.
+
+  Lemma Inv_do_interim cin cout dn order x :
+    (forall h, PS h -> PQ (mkQ ST_INTERIM (s_id h) (s_ident h) cin cout 0) /\
+                       PS (mkS (s_id h) (s_ident h) (s_pend h) (s_cause h) cin cout)) ->
+    Inv x -> InvR (do_interim cin cout dn order x).
+  Proof.
+    intros Hn Hx. unfold do_interim.
+    assert (HF : Forall PS (pick s_id order (filter (fun h => negb (s_pend h)) (x_sess x))))
+      by (apply Forall_pick, Forall_filter', (i_sess _ Hx)).
+    apply InvR_fold_m; [|exact Hx]. intros a y Ha Hy. apply Inv_interim_one; auto.
+    rewrite Forall_forall in HF. auto.
+  Qed.
+
+  Lemma Inv_process_rec maxr st q dn x : PQ q -> Inv x -> InvR (process_rec maxr st q dn x).
+  Proof.
+    intros Hq Hx. unfold process_rec. apply InvR_bind; [apply Inv_ctick, Inv_raw_send; auto|].
+    intros y Hy. cbn. destruct (acked dn q).
+    - apply Inv_set_pend; [apply Forall_filter'|exact Hy].
+    - destruct (find_pend st (x_pend y)); [|exact Hy].
+      destruct (maxr <=? p_retry p + 1).
+      + apply Inv_set_pend; [apply Forall_filter'|exact Hy].
+      + apply Inv_set_pend; [|exact Hy]. intros H. unfold set_retry. apply Forall_map.
+        eapply Forall_impl; [|exact H]. intros a Ha. cbn. destruct (p_stamp a =? st); exact Ha.
+  Qed.
+
+  Lemma Inv_do_queue maxr dn x : Inv x -> InvR (do_queue maxr dn x).
+  Proof.
+    intros Hx. unfold do_queue. destruct (x_chan x) as [|[st q] tl] eqn:E; [exact Hx|].
+    pose proof (i_chan _ Hx) as Hc. rewrite E in Hc. inversion Hc; subst.
+    apply Inv_process_rec; [assumption|]. apply Inv_set_chan; [intros _; assumption|exact Hx].
+  Qed.
+
+  Lemma Inv_do_retry maxr dn order x : Inv x -> InvR (do_retry maxr dn order x).
+  Proof.
+    intros Hx. unfold do_retry.
+    assert (HF : Forall (fun p => PQ (p_req p)) (pick_pos order (x_pend x))) by (apply Forall_pick_pos, (i_pend _ Hx)).
+    apply InvR_fold_m; [|exact Hx]. intros a y Ha Hy. unfold retry_one.
+    apply Inv_process_rec; [|apply Inv_mark; exact Hy]. rewrite Forall_forall in HF. auto.
+  Qed.
+
+  Lemma Inv_fold_raw dn qs : forall x, Forall PQ qs -> Inv x -> Inv (fold_left (fun y q => raw_send q (acked dn q) y) qs x).
+  Proof. induction qs; intros x H Hx; cbn; [exact Hx|]. inversion H; subst. apply IHqs; auto using Inv_raw_send. Qed.
+  Lemma Inv_fold_enq qs : forall x, Forall PQ qs -> Inv x -> Inv (fold_left (fun y q => enqueue q y) qs x).
+  Proof. induction qs; intros x H Hx; cbn; [exact Hx|]. inversion H; subst. apply IHqs; auto using Inv_enqueue. Qed.
+
+  Lemma Inv_do_graceful cin cout dn qorder g x :
+    (forall h, PS h -> PQ (drain_req cin cout h)) -> Inv x -> InvR (do_graceful cin cout dn qorder g x).
+  Proof.
+    intros Hn Hx. unfold do_graceful.
+    assert (HQ : Forall PQ (map (drain_req cin cout) (x_sess x))).
+    { apply Forall_map. eapply Forall_impl; [|apply (i_sess _ Hx)]. exact Hn. }
+    set (qs := map (drain_req cin cout) (x_sess x)) in *.
+    destruct ((g =? 1) && negb (match qs with [] => true | _ => false end)).
+    - cbn. destruct Hx as [? ? ? ? ? ?]. constructor; cbn; auto. apply Forall_app. split; [assumption|].
+      apply Forall_map. eapply Forall_impl; [|exact HQ]. intros q Hq. apply HQE. exact Hq.
+    - assert (H3 : Inv (mark (negb (match qs with [] => true | _ => false end)) 805
+                     (fold_left (fun y q => enqueue q y) (pick q_sid qorder (filter (fun q => negb (acked dn q)) qs))
+                        (fold_left (fun y q => raw_send q (acked dn q) y) qs x)))).
+      { apply Inv_mark. apply Inv_fold_enq; [apply Forall_pick, Forall_filter', HQ|]. apply Inv_fold_raw; auto. }
+      destruct (g =? 2); [exact H3|].
+      match goal with |- InvR (if _ then inr ?a else inl ?a) => assert (H4 : Inv a) end.
+      { destruct (x_pend _) eqn:E; [exact H3|]. apply Inv_set_pjson; [|exact H3].
+        intros l0 El. inversion El; subst. rewrite <- E. apply (i_pend _ H3). }
+      destruct (g =? 3); exact H4.
+  Qed.
+
+  Lemma Inv_recover_one dn f x :
+    PQ (mkQ ST_STOP (s_id f) (s_ident f) (s_lin f) (s_lout f) (if s_cause f =? 0 then CAUSE_NAS_REBOOT else s_cause f)) ->
+    Inv x -> InvR (recover_one dn f x).
+  Proof.
+    intros Hq Hx. unfold recover_one. apply InvR_bind; [apply Inv_ctick, Inv_send; auto|].
+    intros y Hy. apply Inv_ctick, Inv_mark. apply Inv_set_files; [apply Forall_filter'|exact Hy].
+  Qed.
+
+  Lemma Inv_do_restart dn qperm x :
+    (forall f, PS f -> PQ (mkQ ST_STOP (s_id f) (s_ident f) (s_lin f) (s_lout f) (if s_cause f =? 0 then CAUSE_NAS_REBOOT else s_cause f))) ->
+    Inv x -> InvR (do_restart dn qperm x).
+  Proof.
+    intros Hn Hx. unfold do_restart. apply InvR_bind.
+    - pose proof (i_files _ Hx) as HF. apply InvR_fold_m; [|exact Hx]. intros a y Ha Hy.
+      apply Inv_recover_one; [|exact Hy]. apply Hn. rewrite Forall_forall in HF. auto.
+    - intros y Hy. destruct (x_pjson y) as [l|] eqn:E; [|exact Hy].
+      pose proof (i_pjson _ Hy l E) as Hl.
+      apply Inv_ctick, Inv_mark. apply Inv_set_pjson; [discriminate|].
+      apply Inv_set_chan; [intros H; apply Forall_app; split; [exact H|]|].
+      + apply Forall_map. cbn. apply (Forall_pick_pos (fun p => PQ (p_req p))). exact Hl.
+      + apply Inv_set_pend; [intros H; apply Forall_app; split; assumption|exact Hy].
+  Qed.
+End Pres.
+
+(* ---------------------------------------------------------------- traces and the state-level invariant *)
+Definition trace_from (s : state) (ops : list op) : list (op * out) :=
+  map (fun x => (fst (fst x), snd (fst x))) (model_trace step s ops).
+Definition trace (maxr : N) (ops : list op) : list (op * out) := trace_from (init maxr) ops.
+
+Lemma trace_from_cons s o ops :
+  trace_from s (o :: ops) = (o, snd (fst (step s o))) :: trace_from (fst (fst (step s o))) ops.
+Proof. unfold trace_from. cbn. destruct (step s o) as [[s' r] mk]. reflexivity. Qed.
+
+Section StateInv.
+  Variables (PS : sess -> Prop) (PQ : req -> Prop) (PE : wrec * bool -> Prop).
+  Hypothesis HQE : forall q a, PQ q -> PE (wire q, a).
+
+  Definition SI (s : state) : Prop :=
+    Forall PS (st_sess s) /\ Forall PS (st_files s) /\ Forall (fun p => PQ (p_req p)) (st_pend s) /\
+    Forall (fun e => PQ (snd e)) (st_chan s) /\ (forall l, st_pjson s = Some l -> Forall (fun p => PQ (p_req p)) l).
+
+  Lemma Inv_enter s c : SI s -> Inv PS PQ PE (enter s c).
+  Proof. intros (H1 & H2 & H3 & H4 & H5). constructor; cbn; auto. Qed.
+
+  Lemma leave_SI s b r : InvR PS PQ PE r ->
+    SI (fst (fst (leave s b r))) /\ Forall PE (o_ev (snd (fst (leave s b r)))).
+  Proof.
+    destruct r as [y|y]; cbn; intros [H1 H2 H3 H4 H5 H6].
+    - destruct b; cbn; (split; [unfold SI; cbn; repeat split; auto|auto]).
+    - split; [unfold SI; cbn; repeat split; auto|auto].
+  Qed.
+
+  Definition opcond (s : state) (o : op) : Prop :=
+    match o with
+    | Start id idn _ _ => st_alive s = true -> find_sess id (st_sess s) = None ->
+                          PS (mkS id idn false 0 0 0) /\ PQ (mkQ ST_START id idn 0 0 0)
+    | Stop id cause cin cout _ _ => forall se0, PS se0 -> s_id se0 = id ->
+         PS (mkS id (s_ident se0) true cause (s_lin se0) (s_lout se0)) /\ PQ (mkQ ST_STOP id (s_ident se0) cin cout cause)
+    | InterimTick cin cout _ _ _ => forall h, PS h -> PQ (mkQ ST_INTERIM (s_id h) (s_ident h) cin cout 0) /\
+                                              PS (mkS (s_id h) (s_ident h) (s_pend h) (s_cause h) cin cout)
+    | GracefulStop cin cout _ _ _ => forall h, PS h -> PQ (drain_req cin cout h)
+    | Restart _ _ _ => forall f, PS f ->
+         PQ (mkQ ST_STOP (s_id f) (s_ident f) (s_lin f) (s_lout f) (if s_cause f =? 0 then CAUSE_NAS_REBOOT else s_cause f))
+    | _ => True
+    end.
+
+  Lemma step_SI s o : SI s -> opcond s o ->
+    SI (fst (fst (step s o))) /\ Forall PE (o_ev (snd (fst (step s o)))).
+  Proof.
+    intros Hs Hc. pose proof (fun c => Inv_enter s c Hs) as He.
+    destruct o; cbn [step]; try (destruct (st_alive s) eqn:Ea; [|cbn; split; [exact Hs|constructor]]).
+    - apply leave_SI. apply Inv_do_start; auto.
+    - apply leave_SI. apply Inv_do_stop; auto.
+    - apply leave_SI. apply Inv_do_interim; auto.
+    - apply leave_SI. apply Inv_do_queue; auto.
+    - apply leave_SI. apply Inv_do_retry; auto.
+    - apply leave_SI. apply Inv_do_graceful; auto.
+    - apply leave_SI. cbn. apply He.
+    - destruct (st_alive s); [cbn; split; [exact Hs|constructor]|]. apply leave_SI. apply Inv_do_restart; auto.
+    - cbn; split; [exact Hs|constructor].
+  Qed.
+End StateInv.
+
+(* ---------------------------------------------------------------- instance: clauses 2, 5, 6 *)
+Definition PSb (reg : list (N * ident)) (ctr : list (N * N)) (se : sess) : Prop :=
+  in_reg (s_id se) (s_ident se) reg = true /\ in_ctr (s_lin se) (s_lout se) ctr = true.
+Definition PQb (reg : list (N * ident)) (ctr : list (N * N)) (q : req) : Prop :=
+  in_reg (q_sid q) (q_ident q) reg = true /\ in_ctr (q_in q) (q_out q) ctr = true.
+Definition PEb (reg : list (N * ident)) (ctr : list (N * N)) (e : wrec * bool) : Prop :=
+  in_reg (w_sid (fst e)) (w_ident (fst e)) reg = true /\ in_ctr (join (w_in (fst e))) (join (w_out (fst e))) ctr = true.
+
+Definition regs_ok (ss : sstate) : Prop :=
+  in_ctr 0 0 (ss_ctr ss) = true /\
+  (forall s i, in_reg s i (ss_reg ss) = true -> (0 <? cnt s (ss_starts ss)) = true).
+
+Lemma HQEb reg ctr : in_ctr 0 0 ctr = true -> forall q a, PQb reg ctr q -> PEb reg ctr (wire q, a).
+Proof.
+  intros Hz q a [H1 H2]. unfold PEb, wire; cbn. split; [exact H1|].
+  destruct (negb (q_st q =? ST_START)); [rewrite !join_split; exact H2|exact Hz].
+Qed.
+
+Lemma in_reg_cons s i p l : in_reg s i l = true -> in_reg s i (p :: l) = true.
+Proof. unfold in_reg; cbn. intros ->. apply orb_true_r. Qed.
+Lemma in_ctr_cons a b p l : in_ctr a b l = true -> in_ctr a b (p :: l) = true.
+Proof. unfold in_ctr; cbn. intros ->. apply orb_true_r. Qed.
+Lemma in_reg_hd s i l : in_reg s i ((s, i) :: l) = true.
+Proof.
+  unfold in_reg; cbn. rewrite N.eqb_refl. destruct i as [[a b] c]. cbn. rewrite !N.eqb_refl. reflexivity.
+Qed.
+Lemma in_ctr_hd a b l : in_ctr a b ((a, b) :: l) = true.
+Proof. unfold in_ctr; cbn. rewrite !N.eqb_refl. reflexivity. Qed.
+
+Lemma ident_eqb_eq a b : ident_eqb a b = true -> a = b.
+Proof.
+  destruct a as [[a1 a2] a3], b as [[b1 b2] b3]; cbn. rewrite !andb_true_iff, !N.eqb_eq. intros [[-> ->] ->]. reflexivity.
+Qed.
+
+(* registries of the monitor are touched only by [pre] *)
+Lemma ev_upd_regs ss e :
+  ss_reg (ev_upd ss e) = ss_reg ss /\ ss_ctr (ev_upd ss e) = ss_ctr ss /\ ss_starts (ev_upd ss e) = ss_starts ss /\
+  ss_maxr (ev_upd ss e) = ss_maxr ss.
+Proof. destruct e as [w a]. unfold ev_upd. repeat (destruct (_ && _)); cbn; auto. Qed.
+
+Lemma fold_ev_upd_regs es : forall ss,
+  ss_reg (fold_left ev_upd es ss) = ss_reg ss /\ ss_ctr (fold_left ev_upd es ss) = ss_ctr ss /\
+  ss_starts (fold_left ev_upd es ss) = ss_starts ss.
+Proof.
+  induction es as [|e tl IH]; intros ss; cbn; [auto|].
+  destruct (IH (ev_upd ss e)) as (-> & -> & ->). destruct (ev_upd_regs ss e) as (-> & -> & -> & _). auto.
+Qed.
+
+Lemma post_regs ss o r :
+  ss_reg (post ss o r) = ss_reg ss /\ ss_ctr (post ss o r) = ss_ctr ss /\ ss_starts (post ss o r) = ss_starts ss.
+Proof.
+  unfold post. destruct (died o r); destruct o; cbn; repeat (match goal with |- context [if ?b then _ else _] => destruct b end; cbn); auto.
+Qed.
+
+Lemma supd_regs ss o r :
+  ss_reg (supd ss o r) = ss_reg (pre ss o r) /\ ss_ctr (supd ss o r) = ss_ctr (pre ss o r) /\
+  ss_starts (supd ss o r) = ss_starts (pre ss o r).
+Proof.
+  unfold supd. destruct (post_regs (fold_left ev_upd (o_ev r) (pre ss o r)) o r) as (-> & -> & ->).
+  apply fold_ev_upd_regs.
+Qed.
+
+Lemma cnt_cons_pos s l : (0 <? cnt s (s :: l)) = true.
+Proof. unfold cnt. cbn. rewrite N.eqb_refl. cbn. lia. Qed.
+Lemma cnt_cons_mono s t l : (0 <? cnt s l) = true -> (0 <? cnt s (t :: l)) = true.
+Proof. unfold cnt. cbn. destruct (s =? t); cbn; lia. Qed.
+
+Lemma pre_regs_ok ss o r : regs_ok ss -> regs_ok (pre ss o r).
+Proof.
+  intros [Hz Hl]. destruct o; cbn; try (split; [try apply in_ctr_cons; exact Hz|exact Hl]).
+  destruct (ran r); [|split; assumption]. split; [exact Hz|]. cbn. intros s0 i. unfold in_reg. cbn.
+  rewrite orb_true_iff. intros [H|H].
+  - apply andb_true_iff in H. destruct H as [H _]. apply N.eqb_eq in H. subst. apply cnt_cons_pos.
+  - apply cnt_cons_mono. apply Hl with i. exact H.
+Qed.
+
+Lemma pre_mono_reg ss o r s i : in_reg s i (ss_reg ss) = true -> in_reg s i (ss_reg (pre ss o r)) = true.
+Proof. intros H. destruct o; cbn [pre ss_reg]; auto; destruct (ran r); cbn [ss_reg]; auto using in_reg_cons. Qed.
+Lemma pre_mono_ctr ss o r a b : in_ctr a b (ss_ctr ss) = true -> in_ctr a b (ss_ctr (pre ss o r)) = true.
+Proof. intros H. destruct o; cbn [pre ss_ctr]; auto using in_ctr_cons; destruct (ran r); cbn [ss_ctr]; auto. Qed.
+
+Lemma SI_mono ss o r s :
+  SI (PSb (ss_reg ss) (ss_ctr ss)) (PQb (ss_reg ss) (ss_ctr ss)) s ->
+  SI (PSb (ss_reg (pre ss o r)) (ss_ctr (pre ss o r))) (PQb (ss_reg (pre ss o r)) (ss_ctr (pre ss o r))) s.
+Proof.
+  assert (HS : forall se, PSb (ss_reg ss) (ss_ctr ss) se -> PSb (ss_reg (pre ss o r)) (ss_ctr (pre ss o r)) se)
+    by (intros se [H1 H2]; split; auto using pre_mono_reg, pre_mono_ctr).
+  assert (HQ : forall q, PQb (ss_reg ss) (ss_ctr ss) q -> PQb (ss_reg (pre ss o r)) (ss_ctr (pre ss o r)) q)
+    by (intros q [H1 H2]; split; auto using pre_mono_reg, pre_mono_ctr).
+  intros (H1 & H2 & H3 & H4 & H5). unfold SI. repeat split.
+  - eapply Forall_impl; [|exact H1]; auto.
+  - eapply Forall_impl; [|exact H2]; auto.
+  - eapply Forall_impl; [|exact H3]; cbn; auto.
+  - eapply Forall_impl; [|exact H4]; cbn; auto.
+  - intros l E. eapply Forall_impl; [|exact (H5 l E)]; cbn; auto.
+Qed.
+
+(* a Start call that finds no such session runs (returns ok or dies inside) *)
+Lemma start_ran s id idn dn c : st_alive s = true -> find_sess id (st_sess s) = None ->
+  ran (snd (fst (step s (Start id idn dn c)))) = true.
+Proof.
+  intros Ea Ef. cbn [step]. rewrite Ea. unfold do_start. cbn [enter x_sess]. rewrite Ef.
+  unfold bind, ctick, send, mark. cbn.
+  destruct (acked dn _); cbn; repeat (match goal with |- context [if ?b then _ else _] => destruct b eqn:?; cbn end); reflexivity.
+Qed.
+
+Lemma opcond_b ss s o :
+  let r := snd (fst (step s o)) in
+  SI (PSb (ss_reg ss) (ss_ctr ss)) (PQb (ss_reg ss) (ss_ctr ss)) s -> regs_ok ss ->
+  opcond (PSb (ss_reg (pre ss o r)) (ss_ctr (pre ss o r))) (PQb (ss_reg (pre ss o r)) (ss_ctr (pre ss o r))) s o.
+Proof.
+  intros r Hs [Hz Hl]. destruct o; cbn [opcond]; auto.
+  - intros Ea Ef. subst r. cbn [pre]. rewrite (start_ran s s0 id dn c Ea Ef). cbn.
+    split; split; cbn [s_id s_ident s_lin s_lout q_sid q_ident q_in q_out]; auto using in_reg_hd.
+  - cbn [pre ss_reg ss_ctr]. intros se0 [H1 H2] <-. split; split; cbn [s_id s_ident s_lin s_lout q_sid q_ident q_in q_out]; auto using in_ctr_cons, in_ctr_hd.
+  - cbn [pre ss_reg ss_ctr]. intros h [H1 H2]. split; split; cbn [s_id s_ident s_lin s_lout q_sid q_ident q_in q_out]; auto using in_ctr_cons, in_ctr_hd.
+  - cbn [pre ss_reg ss_ctr]. intros h [H1 H2]. split; cbn [drain_req s_id s_ident s_lin s_lout q_sid q_ident q_in q_out]; auto using in_ctr_cons, in_ctr_hd.
+Qed.
+
+Lemma events_ok_b k : (k = 2 \/ k = 5 \/ k = 6) -> forall es ss,
+  regs_ok ss -> Forall (PEb (ss_reg ss) (ss_ctr ss)) es -> events_ok k ss es = true.
+Proof.
+  intros Hk. induction es as [|[w a] tl IH]; intros ss Hr HF; cbn [events_ok]; [reflexivity|].
+  inversion HF as [|? ? [H1 H2] HF']; subst. cbn in H1, H2. apply andb_true_iff. split.
+  - destruct Hr as [Hz Hl]. destruct Hk as [-> | [-> | ->]]; cbn.
+    + rewrite (Hl _ _ H1). apply orb_true_r.
+    + rewrite H1. apply orb_true_r.
+    + rewrite H2. apply orb_true_r.
+  - apply IH.
+    + destruct Hr as [Hz Hl]. destruct (ev_upd_regs ss (w, a)) as (E1 & E2 & E3 & _). split; [rewrite E2; exact Hz|].
+      rewrite E1, E3. exact Hl.
+    + destruct (ev_upd_regs ss (w, a)) as (-> & -> & _). exact HF'.
+Qed.
+
+Theorem holds_256 k : (k = 2 \/ k = 5 \/ k = 6) -> forall ops s ss,
+  SI (PSb (ss_reg ss) (ss_ctr ss)) (PQb (ss_reg ss) (ss_ctr ss)) s -> regs_ok ss ->
+  holds k ss (trace_from s ops) = true.
+Proof.
+  intros Hk. induction ops as [|o ops IH]; intros s ss Hs Hr; [reflexivity|].
+  rewrite trace_from_cons. cbn [holds]. set (r := snd (fst (step s o))).
+  pose proof (pre_regs_ok ss o r Hr) as Hr1.
+  destruct (step_SI _ _ _ (HQEb _ _ (proj1 Hr1)) s o (SI_mono ss o r s Hs) (opcond_b ss s o Hs Hr)) as [Hs' Hev].
+  fold r in Hev. apply andb_true_iff. split.
+  - unfold op_ok. apply andb_true_iff. split; [apply events_ok_b; auto|].
+    destruct Hk as [-> | [-> | ->]]; reflexivity.
+  - apply IH.
+    + destruct (supd_regs ss o r) as (-> & -> & _). exact Hs'.
+    + destruct (supd_regs ss o r) as (E1 & E2 & E3). destruct Hr1 as [Hz Hl]. split; [rewrite E2; exact Hz|].
+      rewrite E1, E3. exact Hl.
+Qed.
+
+Lemma init_SI maxr PS PQ : SI PS PQ (init maxr).
+Proof. unfold SI, init; cbn. repeat split; auto. discriminate. Qed.
+
+Theorem clause_256 k : (k = 2 \/ k = 5 \/ k = 6) -> forall maxr ops, holds k (sinit maxr) (trace maxr ops) = true.
+Proof.
+  intros Hk maxr ops. apply holds_256; [exact Hk|apply init_SI|]. split; [reflexivity|]. cbn. discriminate.
+Qed.
+
+
+(* ---------------------------------------------------------------- clause 4, crash-free histories *)
+Definition quiet_op (o : op) : bool :=
+  match o with
+  | Start _ _ _ c | Stop _ _ _ _ _ c | InterimTick _ _ _ _ c | ProcessQueued _ c | RetryTick _ _ c => c =? 0
+  | Final => true
+  | _ => false
+  end.
+Definition crash_free (ops : list op) : bool := forallb quiet_op ops.
+
+Definition isstop (sid : N) (q : req) : bool := (q_st q =? ST_STOP) && (q_sid q =? sid).
+Definition nstops (sid : N) (l : list prec) : N := N.of_nat (length (filter (fun p => isstop sid (p_req p)) l)).
+
+Lemma stops_in_pview sid l : stops_in sid (pview l) = nstops sid l.
+Proof.
+  unfold stops_in, nstops, pview, isstop. f_equal. induction l as [|p tl IH]; cbn; [reflexivity|].
+  destruct ((q_st (p_req p) =? ST_STOP) && (q_sid (p_req p) =? sid)); cbn; rewrite IH; reflexivity.
+Qed.
+
+Definition fresh (st : N) (l : list prec) : Prop := Forall (fun p => p_stamp p <> st) l.
+Fixpoint uniq (l : list prec) : Prop :=
+  match l with [] => True | p :: tl => fresh (p_stamp p) tl /\ uniq tl end.
+
+Lemma uniq_filter f l : uniq l -> uniq (filter f l).
+Proof.
+  induction l as [|p tl IH]; cbn; [auto|]. intros [Hf Hu]. destruct (f p); cbn; [split|]; auto.
+  apply Forall_filter'. exact Hf.
+Qed.
+
+Lemma uniq_map g l : (forall p, p_stamp (g p) = p_stamp p) -> uniq l -> uniq (map g l).
+Proof.
+  intros Hg. induction l as [|p tl IH]; cbn; [auto|]. intros [Hf Hu]. split; [|auto].
+  unfold fresh in *. apply Forall_map. rewrite Hg. eapply Forall_impl; [|exact Hf]. cbn. intros a. rewrite Hg. auto.
+Qed.
+
+Lemma uniq_snoc l p : fresh (p_stamp p) l -> uniq l -> uniq (l ++ [p]).
+Proof.
+  induction l as [|a tl IH]; cbn; [intros _ _; split; [constructor|exact I]|].
+  intros Hf [Ha Hu]. inversion Hf; subst. split; [|apply IH; auto].
+  unfold fresh in *. apply Forall_app. split; [exact Ha|]. constructor; [congruence|constructor].
+Qed.
+
+Lemma uniq_functional l p p' : uniq l -> In p l -> In p' l -> p_stamp p = p_stamp p' -> p = p'.
+Proof.
+  induction l as [|a tl IH]; cbn; [tauto|]. intros [Hf Hu] [->|Hp] [->|Hp'] E; auto.
+  - unfold fresh in Hf. rewrite Forall_forall in Hf. exfalso. apply (Hf p' Hp'). auto.
+  - unfold fresh in Hf. rewrite Forall_forall in Hf. exfalso. apply (Hf p Hp). auto.
+Qed.
+
+Lemma cnt_cons s x l : cnt s (x :: l) = cnt s l + (if s =? x then 1 else 0).
+Proof. unfold cnt. cbn. destruct (s =? x); cbn; lia. Qed.
+
+(* the part of the state clause 4 depends on, related to the monitor's counters *)
+Record M (maxr : N) (pend : list prec) (chan : list (N * req)) (stamp : N) (ss : sstate) : Prop := mkM {
+  m_uniq : uniq pend;
+  m_lt : Forall (fun p => p_stamp p < stamp) pend;
+  m_clt : Forall (fun e => fst e < stamp) chan;
+  m_cons : Forall (fun e => Forall (fun p => p_stamp p = fst e -> p_req p = snd e) pend) chan;
+  m_budget : Forall (fun p => q_st (p_req p) = ST_STOP -> p_retry p < cnt (q_sid (p_req p)) (ss_dropstop ss)) pend;
+  m_count : forall sid, maxr < cnt sid (ss_dropstop ss) \/
+                        cnt sid (ss_ended ss) <= cnt sid (ss_ackstop ss) + nstops sid pend }.
+
+(* a record that is not a Stop does not touch the counters clause 4 uses *)
+Lemma ev_upd_nonstop ss w a : w_st w <> ST_STOP ->
+  ss_dropstop (ev_upd ss (w, a)) = ss_dropstop ss /\ ss_ackstop (ev_upd ss (w, a)) = ss_ackstop ss /\
+  ss_ended (ev_upd ss (w, a)) = ss_ended ss.
+Proof.
+  intros H. unfold ev_upd. apply N.eqb_neq in H. rewrite H. rewrite !andb_false_r.
+  destruct (a && (w_st w =? ST_START)); cbn; auto.
+Qed.
+
+Lemma ev_upd_stop ss w a : w_st w = ST_STOP ->
+  ss_ended (ev_upd ss (w, a)) = ss_ended ss /\
+  (if a then ss_ackstop (ev_upd ss (w, a)) = w_sid w :: ss_ackstop ss /\ ss_dropstop (ev_upd ss (w, a)) = ss_dropstop ss
+   else ss_ackstop (ev_upd ss (w, a)) = ss_ackstop ss /\ ss_dropstop (ev_upd ss (w, a)) = w_sid w :: ss_dropstop ss).
+Proof.
+  intros H. unfold ev_upd. rewrite H. cbn. destruct a; cbn; auto.
+Qed.
+
+Lemma M_ev_nonstop maxr pend chan stamp ss w a : w_st w <> ST_STOP ->
+  M maxr pend chan stamp ss -> M maxr pend chan stamp (ev_upd ss (w, a)).
+Proof.
+  intros H [H1 H2 H3 H4 H5 H6]. destruct (ev_upd_nonstop ss w a H) as (E1 & E2 & E3).
+  constructor; auto; rewrite ?E1, ?E2, ?E3; auto.
+Qed.
+
+Lemma nstops_snoc sid l p : nstops sid (l ++ [p]) = nstops sid l + (if isstop sid (p_req p) then 1 else 0).
+Proof.
+  unfold nstops. rewrite filter_app, app_length. cbn. destruct (isstop sid (p_req p)); cbn; lia.
+Qed.
+
+Lemma M_enqueue maxr pend chan stamp ss q :
+  (q_st q = ST_STOP -> 0 < cnt (q_sid q) (ss_dropstop ss)) ->
+  M maxr pend chan stamp ss -> M maxr (pend ++ [mkP stamp q 0]) (chan ++ [(stamp, q)]) (stamp + 1) ss.
+Proof.
+  intros Hq [H1 H2 H3 H4 H5 H6]. constructor.
+  - apply uniq_snoc; [|exact H1]. cbn. unfold fresh. eapply Forall_impl; [|exact H2]. cbn. intros; lia.
+  - apply Forall_app. split; [eapply Forall_impl; [|exact H2]; cbn; intros; lia|]. constructor; [cbn; lia|constructor].
+  - apply Forall_app. split; [eapply Forall_impl; [|exact H3]; cbn; intros; lia|]. constructor; [cbn; lia|constructor].
+  - apply Forall_app. split.
+    + rewrite Forall_forall in *. intros e He. apply Forall_app. split; [apply H4; exact He|].
+      constructor; [|constructor]. cbn. intros E. specialize (H3 e He). cbn in H3. lia.
+    + constructor; [|constructor]. cbn. apply Forall_app. split; [|constructor; [cbn; auto|constructor]].
+      eapply Forall_impl; [|exact H2]. cbn. intros; lia.
+  - apply Forall_app. split; [exact H5|]. constructor; [cbn; exact Hq|constructor].
+  - intros sid. destruct (H6 sid) as [H|H]; [left; exact H|right]. rewrite nstops_snoc. lia.
+Qed.
+
+(* processPendingRecord's effect on the map *)
+Definition proc_pend (maxr st : N) (a : bool) (pend : list prec) : list prec :=
+  if a then del_pend st pend
+  else match find_pend st pend with
+       | None => pend
+       | Some p => if maxr <=? p_retry p + 1 then del_pend st pend else set_retry st (p_retry p + 1) pend
+       end.
+
+Lemma fresh_del st l : fresh st l -> del_pend st l = l.
+Proof.
+  unfold fresh, del_pend. induction 1 as [|p tl Hp Ht IH]; cbn; [reflexivity|].
+  apply N.eqb_neq in Hp. rewrite Hp. cbn. rewrite IH. reflexivity.
+Qed.
+
+Lemma nstops_del sid st q l : uniq l -> Forall (fun p => p_stamp p = st -> p_req p = q) l ->
+  nstops sid l <= nstops sid (del_pend st l) + (if isstop sid q then 1 else 0).
+Proof.
+  induction l as [|p tl IH]; cbn [uniq]; intros Hu HF.
+  - unfold nstops; cbn. destruct (isstop sid q); lia.
+  - destruct Hu as [Hf Hu]. inversion HF as [|? ? Hp HF']; subst.
+    unfold del_pend in *. cbn [filter]. destruct (p_stamp p =? st) eqn:E; cbn [negb].
+    + apply N.eqb_eq in E. subst st. fold (del_pend (p_stamp p) tl). rewrite (fresh_del _ _ Hf).
+      unfold nstops. cbn [filter]. rewrite (Hp eq_refl). destruct (isstop sid q); cbn [length]; lia.
+    + specialize (IH Hu HF'). unfold nstops in *. cbn [filter]. destruct (isstop sid (p_req p)); cbn [length]; lia.
+Qed.
+
+Lemma nstops_del_le sid st l : nstops sid (del_pend st l) <= nstops sid l.
+Proof.
+  unfold nstops, del_pend. induction l as [|p tl IH]; cbn; [lia|].
+  destruct (negb (p_stamp p =? st)); cbn; destruct (isstop sid (p_req p)); cbn; lia.
+Qed.
+
+Lemma nstops_set_retry sid st r l : nstops sid (set_retry st r l) = nstops sid l.
+Proof.
+  unfold nstops, set_retry. f_equal. induction l as [|p tl IH]; cbn; [reflexivity|].
+  destruct (p_stamp p =? st); cbn; destruct (isstop sid (p_req p)); cbn; rewrite IH; reflexivity.
+Qed.
+
+(* any property of (stamp, request) pairs survives processPendingRecord *)
+Lemma proc_keeps (P : N -> req -> Prop) maxr st a l :
+  Forall (fun p => P (p_stamp p) (p_req p)) l -> Forall (fun p => P (p_stamp p) (p_req p)) (proc_pend maxr st a l).
+Proof.
+  intros H. unfold proc_pend. destruct a; [apply Forall_filter'; exact H|].
+  destruct (find_pend st l); [|exact H]. destruct (maxr <=? p_retry p + 1); [apply Forall_filter'; exact H|].
+  unfold set_retry. apply Forall_map. eapply Forall_impl; [|exact H]. intros x Hx. cbn.
+  destruct (p_stamp x =? st); exact Hx.
+Qed.
+
+Lemma M_proc maxr pend chan stamp ss st q a :
+  ss_maxr ss = maxr \/ True ->
+  Forall (fun p => p_stamp p = st -> p_req p = q) pend ->
+  M maxr pend chan stamp ss -> M maxr (proc_pend maxr st a pend) chan stamp (ev_upd ss (wire q, a)).
+Proof.
+  intros _ HF [H1 H2 H3 H4 H5 H6].
+  assert (Huniq : uniq (proc_pend maxr st a pend)).
+  { unfold proc_pend. destruct a; [apply uniq_filter; exact H1|]. destruct (find_pend st pend); [|exact H1].
+    destruct (maxr <=? _); [apply uniq_filter; exact H1|]. apply uniq_map; [|exact H1].
+    intros p0. cbn. destruct (p_stamp p0 =? st); reflexivity. }
+  assert (Hlt : Forall (fun p => p_stamp p < stamp) (proc_pend maxr st a pend))
+    by (apply (proc_keeps (fun s _ => s < stamp)); exact H2).
+  assert (Hcons : Forall (fun e => Forall (fun p => p_stamp p = fst e -> p_req p = snd e) (proc_pend maxr st a pend)) chan).
+  { eapply Forall_impl; [|exact H4]. intros e He. apply (proc_keeps (fun s r => s = fst e -> r = snd e)). exact He. }
+  destruct (N.eq_dec (q_st q) ST_STOP) as [Hs|Hs].
+  - (* a Stop record *)
+    assert (Hw : w_st (wire q) = ST_STOP) by exact Hs.
+    destruct (ev_upd_stop ss (wire q) a Hw) as [Ee Ea]. cbn [wire w_sid] in Ea.
+    destruct a.
+    + destruct Ea as [Ek Ed]. constructor; auto.
+      * rewrite Ed. unfold proc_pend. apply Forall_filter'. exact H5.
+      * intros sid. rewrite Ed, Ee, Ek, cnt_cons. destruct (H6 sid) as [H|H]; [left; exact H|right].
+        pose proof (nstops_del sid st q pend H1 HF) as Hd. unfold proc_pend.
+        unfold isstop in Hd. rewrite Hs in Hd. cbn in Hd. rewrite (N.eqb_sym sid) . destruct (q_sid q =? sid); lia.
+    + destruct Ea as [Ek Ed]. unfold proc_pend in *. destruct (find_pend st pend) as [p|] eqn:Ef.
+      * assert (Hin : In p pend) by (apply find_some in Ef; tauto).
+        assert (Hst : p_stamp p = st) by (apply find_some in Ef; apply N.eqb_eq; tauto).
+        assert (Hpq : p_req p = q) by (rewrite Forall_forall in HF; apply (HF p Hin Hst)).
+        assert (Hb : p_retry p < cnt (q_sid q) (ss_dropstop ss))
+          by (rewrite Forall_forall in H5; rewrite <- Hpq; apply (H5 p Hin); rewrite Hpq; exact Hs).
+        destruct (maxr <=? p_retry p + 1) eqn:Em.
+        -- constructor; auto.
+           ++ rewrite Ed. apply Forall_filter'. eapply Forall_impl; [|exact H5]. cbn. intros x Hx Hxs.
+              specialize (Hx Hxs). rewrite cnt_cons. lia.
+           ++ intros sid. rewrite Ed, Ee, Ek, cnt_cons. destruct (N.eqb_spec sid (q_sid q)) as [->|Hne].
+              ** left. apply N.leb_le in Em. lia.
+              ** destruct (H6 sid) as [H|H]; [left; lia|right].
+                 pose proof (nstops_del sid st q pend H1 HF) as Hd. unfold isstop in Hd. rewrite Hs in Hd. cbn in Hd.
+                 apply N.eqb_neq in Hne. rewrite N.eqb_sym in Hne. rewrite Hne in Hd. lia.
+        -- constructor; auto.
+           ++ rewrite Ed. unfold set_retry. apply Forall_map. rewrite Forall_forall in *. intros x Hx. cbn.
+              destruct (p_stamp x =? st) eqn:Ex; cbn.
+              ** apply N.eqb_eq in Ex. rewrite (HF x Hx Ex). intros _. rewrite cnt_cons, N.eqb_refl. lia.
+              ** intros Hxs. specialize (H5 x Hx Hxs). rewrite cnt_cons. lia.
+           ++ intros sid. rewrite Ed, Ee, Ek, cnt_cons, nstops_set_retry.
+              destruct (H6 sid) as [H|H]; [left; lia|right; exact H].
+      * constructor; auto.
+        -- rewrite Ed. eapply Forall_impl; [|exact H5]. cbn. intros x Hx Hxs. specialize (Hx Hxs). rewrite cnt_cons. lia.
+        -- intros sid. rewrite Ed, Ee, Ek, cnt_cons. destruct (H6 sid) as [H|H]; [left; lia|right; exact H].
+  - (* not a Stop record: counters unchanged; the record removed (if any) is not a Stop *)
+    assert (Hw : w_st (wire q) <> ST_STOP) by exact Hs.
+    destruct (ev_upd_nonstop ss (wire q) a Hw) as (Ed & Ek & Ee).
+    assert (Hdel : forall sid, nstops sid pend <= nstops sid (del_pend st pend)).
+    { intros sid. pose proof (nstops_del sid st q pend H1 HF) as Hd. unfold isstop in Hd.
+      apply N.eqb_neq in Hs. rewrite Hs in Hd. cbn in Hd. lia. }
+    constructor; auto.
+    + rewrite Ed. unfold proc_pend. destruct a; [apply Forall_filter'; exact H5|].
+      destruct (find_pend st pend) as [p|] eqn:Ef; [|exact H5].
+      destruct (maxr <=? _); [apply Forall_filter'; exact H5|].
+      unfold set_retry. apply Forall_map. rewrite Forall_forall in *. intros x Hx. cbn.
+      destruct (p_stamp x =? st) eqn:Ex; cbn; [|apply H5; exact Hx].
+      apply N.eqb_eq in Ex. rewrite (HF x Hx Ex). intros Hq. contradiction.
+    + intros sid. rewrite Ed, Ee, Ek. destruct (H6 sid) as [H|H]; [left; exact H|right].
+      unfold proc_pend. destruct a; [specialize (Hdel sid); lia|].
+      destruct (find_pend st pend); [|exact H]. destruct (maxr <=? _); [specialize (Hdel sid); lia|].
+      rewrite nstops_set_retry. exact H.
+Qed.
+
+Lemma M_same maxr pend chan stamp ss ss' :
+  ss_dropstop ss' = ss_dropstop ss -> ss_ackstop ss' = ss_ackstop ss -> ss_ended ss' = ss_ended ss ->
+  M maxr pend chan stamp ss -> M maxr pend chan stamp ss'.
+Proof. intros E1 E2 E3 [H1 H2 H3 H4 H5 H6]. constructor; auto; rewrite ?E1, ?E2, ?E3; auto. Qed.
+
+(* micro-state version: the monitor has consumed the records of x_ev; no crash is armed *)
+Definition MX (maxr : N) (ss0 : sstate) (x : ms) : Prop :=
+  M maxr (x_pend x) (x_chan x) (x_stamp x) (fold_left ev_upd (x_ev x) ss0) /\ x_c x = 0.
+
+Lemma ctick0 x : x_c x = 0 -> ctick x = inl (set_c 0 x).
+Proof. intros H. unfold ctick. rewrite H. reflexivity. Qed.
+
+Lemma MX_send_nonstop maxr ss0 q a x : q_st q <> ST_STOP -> MX maxr ss0 x -> MX maxr ss0 (send q a x).
+Proof.
+  intros Hq [Hm Hc]. unfold send.
+  assert (H1 : MX maxr ss0 (raw_send q a x)).
+  { split; [|exact Hc]. unfold raw_send; cbn [x_pend x_chan x_stamp x_ev]. rewrite fold_left_app. cbn [fold_left].
+    apply M_ev_nonstop; [exact Hq|exact Hm]. }
+  destruct a; [exact H1|]. destruct H1 as [H1 H1c]. split; [|exact H1c].
+  unfold enqueue; cbn [x_pend x_chan x_stamp x_ev].
+  apply M_enqueue; [intros E; contradiction|exact H1].
+Qed.
+
+Lemma process_rec0 maxr st q dn x : x_c x = 0 ->
+  exists y, process_rec maxr st q dn x = inl y /\
+            x_pend y = proc_pend maxr st (acked dn q) (x_pend x) /\ x_chan y = x_chan x /\ x_stamp y = x_stamp x /\
+            x_ev y = x_ev x ++ [(wire q, acked dn q)] /\ x_c y = 0.
+Proof.
+  intros Hc. unfold process_rec, bind. rewrite ctick0 by exact Hc. unfold proc_pend.
+  change (x_pend (set_c 0 (raw_send q (acked dn q) x))) with (x_pend x).
+  destruct (acked dn q); [eexists; split; [reflexivity|repeat split; reflexivity]|].
+  destruct (find_pend st (x_pend x)) as [p|]; [|eexists; split; [reflexivity|repeat split; reflexivity]].
+  destruct (maxr <=? p_retry p + 1); eexists; (split; [reflexivity|repeat split; reflexivity]).
+Qed.
+
+Lemma MX_process_rec maxr ss0 st q dn x :
+  Forall (fun p => p_stamp p = st -> p_req p = q) (x_pend x) -> MX maxr ss0 x ->
+  exists y, process_rec maxr st q dn x = inl y /\ MX maxr ss0 y /\
+            x_pend y = proc_pend maxr st (acked dn q) (x_pend x) /\ x_chan y = x_chan x.
+Proof.
+  intros HF [Hm Hc]. destruct (process_rec0 maxr st q dn x Hc) as (y & E & Ep & Ech & Es & Ee & Ecy).
+  exists y. split; [exact E|]. split; [|auto]. split; [|exact Ecy].
+  rewrite Ep, Ech, Es, Ee, fold_left_app. cbn [fold_left]. apply M_proc; auto.
+Qed.
+
+(* ---- the loops ---- *)
+Lemma interim_one_MX maxr ss0 cin cout dn se x : MX maxr ss0 x ->
+  exists y, interim_one cin cout dn se x = inl y /\ MX maxr ss0 y.
+Proof.
+  intros Hx. unfold interim_one.
+  set (q := mkQ ST_INTERIM (s_id se) (s_ident se) cin cout 0).
+  assert (H1 : MX maxr ss0 (send q (acked dn q) x)) by (apply MX_send_nonstop; [discriminate|exact Hx]).
+  match goal with |- exists y, ctick ?z = inl y /\ _ => assert (H2 : MX maxr ss0 z) end.
+  { destruct (acked dn q); [|exact H1]. destruct H1 as [Ha Hb]. split; cbn; assumption. }
+  destruct H2 as [Ha Hb]. rewrite ctick0 by exact Hb. eexists. split; [reflexivity|]. split; cbn; auto.
+Qed.
+
+Lemma fold_m_MX {A} maxr ss0 (f : A -> ms -> ms + ms) l :
+  (forall a x, MX maxr ss0 x -> exists y, f a x = inl y /\ MX maxr ss0 y) ->
+  forall x, MX maxr ss0 x -> exists y, fold_m f l x = inl y /\ MX maxr ss0 y.
+Proof.
+  intros Hf. induction l as [|a tl IH]; intros x Hx; cbn; [eauto|].
+  destruct (Hf a x Hx) as (y & -> & Hy). apply IH. exact Hy.
+Qed.
+
+Definition fun_at (p : prec) (l : list prec) : Prop :=
+  Forall (fun p' => p_stamp p' = p_stamp p -> p_req p' = p_req p) l.
+
+Lemma retry_loop_MX maxr ss0 dn l : forall x,
+  MX maxr ss0 x -> Forall (fun p => fun_at p (x_pend x)) l ->
+  exists y, fold_m (retry_one maxr dn) l x = inl y /\ MX maxr ss0 y.
+Proof.
+  induction l as [|p tl IH]; intros x Hx HF; cbn [fold_m]; [eauto|].
+  inversion HF as [|? ? Hp HF']; subst. unfold retry_one at 1.
+  set (x1 := mark _ 806 x).
+  assert (Hx1 : MX maxr ss0 x1 /\ x_pend x1 = x_pend x).
+  { unfold x1, mark. destruct (existsb _ _); [|auto]. destruct Hx as [Ha Hb]. split; [split|]; cbn; auto. }
+  destruct Hx1 as [Hx1 Ep1].
+  destruct (MX_process_rec maxr ss0 (p_stamp p) (p_req p) dn x1) as (y & -> & Hy & Ep & _); [rewrite Ep1; exact Hp|exact Hx1|].
+  apply IH; [exact Hy|]. rewrite Ep, Ep1. eapply Forall_impl; [|exact HF'].
+  intros p2 H2. unfold fun_at in *. apply (proc_keeps (fun s r => s = p_stamp p2 -> r = p_req p2)). exact H2.
+Qed.
+
+Lemma pick_pos_in order (l : list prec) : Forall (fun p => In p l) (pick_pos order l).
+Proof. apply Forall_pick_pos. apply Forall_forall. auto. Qed.
+
+(* M only grows weaker premises as the monitor consumes records *)
+Lemma M_ev maxr pend chan stamp ss e : M maxr pend chan stamp ss -> M maxr pend chan stamp (ev_upd ss e).
+Proof.
+  destruct e as [w a]. destruct (N.eq_dec (w_st w) ST_STOP) as [Hs|Hs]; [|apply M_ev_nonstop; exact Hs].
+  intros [H1 H2 H3 H4 H5 H6]. destruct (ev_upd_stop ss w a Hs) as [Ee Ea].
+  destruct a; destruct Ea as [Ek Ed]; constructor; auto.
+  - rewrite Ed. exact H5.
+  - intros sid. rewrite Ed, Ee, Ek, cnt_cons. destruct (H6 sid); [left; auto|right; lia].
+  - rewrite Ed. eapply Forall_impl; [|exact H5]. cbn. intros x Hx Hq. specialize (Hx Hq). rewrite cnt_cons. lia.
+  - intros sid. rewrite Ed, Ee, Ek, cnt_cons. destruct (H6 sid); [left; lia|right; lia].
+Qed.
+
+Definition bump_ended (s : N) (ss : sstate) : sstate :=
+  mkSS (ss_maxr ss) (ss_reg ss) (ss_ctr ss) (ss_starts ss) (ss_live ss) (s :: ss_ended ss)
+       (ss_ackstart ss) (ss_ackstop ss) (ss_dropstop ss) (ss_crashed ss).
+
+(* StopSession's transmit step, seen together with the monitor's "this incarnation has ended" *)
+Lemma M_stop_sent maxr (pend : list prec) (chan : list (N * req)) (stamp : N) ss q (a : bool) :
+  q_st q = ST_STOP -> M maxr pend chan stamp ss ->
+  M maxr (if a then pend else pend ++ [mkP stamp q 0]) (if a then chan else chan ++ [(stamp, q)])
+    (if a then stamp else stamp + 1) (bump_ended (q_sid q) (ev_upd ss (wire q, a))).
+Proof.
+  intros Hs Hm. assert (Hw : w_st (wire q) = ST_STOP) by exact Hs.
+  destruct (ev_upd_stop ss (wire q) a Hw) as [Ee Ea]. cbn [wire w_sid] in Ea.
+  pose proof (M_ev _ _ _ _ _ (wire q, a) Hm) as Hm1.
+  destruct a; destruct Ea as [Ek Ed].
+  - destruct Hm1 as [H1 H2 H3 H4 H5 H6]. constructor; auto. intros sid. cbn [bump_ended ss_dropstop ss_ended ss_ackstop].
+    destruct Hm as [_ _ _ _ _ G6]. rewrite Ed, Ee, Ek, !cnt_cons. destruct (G6 sid); [left; auto|right; lia].
+  - assert (Hm2 : M maxr (pend ++ [mkP stamp q 0]) (chan ++ [(stamp, q)]) (stamp + 1) (ev_upd ss (wire q, false))).
+    { apply M_enqueue; [|exact Hm1]. intros _. rewrite Ed, cnt_cons, N.eqb_refl. lia. }
+    destruct Hm2 as [H1 H2 H3 H4 H5 H6]. constructor; auto. intros sid. cbn [bump_ended ss_dropstop ss_ended ss_ackstop].
+    destruct Hm as [_ _ _ _ _ G6]. rewrite Ed, Ee, Ek, !cnt_cons, nstops_snoc. cbn [p_req]. unfold isstop. rewrite Hs. cbn.
+    rewrite (N.eqb_sym (q_sid q) sid). destruct (G6 sid); [left; lia|right; destruct (sid =? q_sid q); lia].
+Qed.
+
+(* ---- state level ---- *)
+Definition JS (s : state) (ss : sstate) : Prop :=
+  st_alive s = true /\ ss_maxr ss = st_maxr s /\ M (st_maxr s) (st_pend s) (st_chan s) (st_stamp s) ss.
+
+Lemma pre_counts ss o r :
+  ss_dropstop (pre ss o r) = ss_dropstop ss /\ ss_ackstop (pre ss o r) = ss_ackstop ss /\
+  ss_ended (pre ss o r) = ss_ended ss /\ ss_maxr (pre ss o r) = ss_maxr ss.
+Proof. destruct o; cbn; auto. destruct (ran r); cbn; auto. Qed.
+
+Lemma fold_ev_maxr es : forall ss, ss_maxr (fold_left ev_upd es ss) = ss_maxr ss.
+Proof. induction es as [|e tl IH]; intros ss; cbn; [reflexivity|]. rewrite IH. apply ev_upd_regs. Qed.
+
+Lemma post_counts ss o r : died o r = false ->
+  ss_dropstop (post ss o r) = ss_dropstop ss /\ ss_ackstop (post ss o r) = ss_ackstop ss /\
+  ss_maxr (post ss o r) = ss_maxr ss /\
+  ss_ended (post ss o r) = match o with
+                           | Stop s _ _ _ _ _ => if o_ret r =? R_OK then s :: ss_ended ss else ss_ended ss
+                           | _ => ss_ended ss
+                           end.
+Proof.
+  intros Hd. unfold post. rewrite Hd. unfold died in Hd. apply orb_false_elim in Hd. destruct Hd as [Hc _].
+  destruct o; cbn; auto.
+  - rewrite Hc. cbn. destruct (o_ret r =? R_OK); cbn; auto.
+  - destruct (o_ret r =? R_OK); cbn; auto.
+Qed.
+
+Lemma events_ok_4 es : forall ss, events_ok 4 ss es = true.
+Proof. induction es as [|[w a] tl IH]; intros ss; cbn; auto. Qed.
+
+(* the ops of a crash-free history never end in inr, and keep MX *)
+Lemma do_start_cf maxr ss0 s id dn x : MX maxr ss0 x ->
+  exists y, do_start s id dn x = inl y /\ MX maxr ss0 y.
+Proof.
+  intros Hx. unfold do_start. destruct (find_sess s (x_sess x)); [eexists; split; [reflexivity|]|].
+  - destruct Hx as [Ha Hb]. split; cbn; auto.
+  - set (q := mkQ ST_START s id 0 0 0).
+    assert (H1 : MX maxr ss0 (send q (acked dn q) (set_sess (put_sess (mkS s id false 0 0 0)) x))).
+    { apply MX_send_nonstop; [discriminate|]. destruct Hx as [Ha Hb]. split; cbn; auto. }
+    match goal with |- exists y, bind (ctick ?z) _ = inl y /\ _ => assert (H2 : MX maxr ss0 z) end.
+    { unfold mark. repeat match goal with |- context [if ?b then _ else _] => destruct b end;
+        destruct H1 as [Ha Hb]; split; cbn; auto. }
+    destruct H2 as [Ha Hb]. rewrite ctick0 by exact Hb. cbn [bind]. rewrite ctick0 by reflexivity.
+    eexists. split; [reflexivity|]. split; cbn; auto.
+Qed.
+
+Lemma do_interim_cf maxr ss0 cin cout dn order x : MX maxr ss0 x ->
+  exists y, do_interim cin cout dn order x = inl y /\ MX maxr ss0 y.
+Proof. intros Hx. unfold do_interim. apply fold_m_MX; [|exact Hx]. intros a y Hy. apply interim_one_MX. exact Hy. Qed.
+
+Lemma do_queue_cf maxr ss0 dn x : MX maxr ss0 x ->
+  exists y, do_queue maxr dn x = inl y /\ MX maxr ss0 y.
+Proof.
+  intros Hx. unfold do_queue. destruct (x_chan x) as [|[st q] tl] eqn:E; [eauto|].
+  destruct Hx as [[H1 H2 H3 H4 H5 H6] Hc]. rewrite E in H3, H4. inversion H3; subst. inversion H4; subst.
+  destruct (MX_process_rec maxr ss0 st q dn (set_chan (fun _ => tl) x)) as (y & Ey & Hy & _); [cbn; assumption| |eauto].
+  split; [|exact Hc]. cbn. constructor; auto.
+Qed.
+
+Lemma do_retry_cf maxr ss0 dn order x : MX maxr ss0 x ->
+  exists y, do_retry maxr dn order x = inl y /\ MX maxr ss0 y.
+Proof.
+  intros Hx. unfold do_retry. apply retry_loop_MX; [exact Hx|].
+  destruct Hx as [[H1 _ _ _ _ _] _]. eapply Forall_impl; [|apply pick_pos_in]. intros p Hp. unfold fun_at.
+  apply Forall_forall. intros p' Hp' E. f_equal. apply (uniq_functional (x_pend x)); auto.
+Qed.
+
+Lemma do_stop_cf maxr ss0 s cause cin cout dn x : MX maxr ss0 x -> x_ret x = 0 ->
+  match find_sess s (x_sess x) with
+  | None => do_stop s cause cin cout dn x = inl (set_ret 1 x)
+  | Some se0 =>
+      let q := mkQ ST_STOP s (s_ident se0) cin cout cause in
+      exists y, do_stop s cause cin cout dn x = inl y /\ x_ret y = 0 /\ x_c y = 0 /\
+                x_ev y = x_ev x ++ [(wire q, acked dn q)] /\
+                x_pend y = (if acked dn q then x_pend x else x_pend x ++ [mkP (x_stamp x) q 0]) /\
+                x_chan y = (if acked dn q then x_chan x else x_chan x ++ [(x_stamp x, q)]) /\
+                x_stamp y = (if acked dn q then x_stamp x else x_stamp x + 1)
+  end.
+Proof.
+  intros [_ Hc] Hr. unfold do_stop. destruct (find_sess s (x_sess x)) as [se0|]; [|reflexivity].
+  destruct x as [se pe ch fi pj st ev c mk rt]. cbn in Hc, Hr. subst c rt. cbn.
+  destruct (acked dn _); cbn; eexists; (split; [reflexivity|cbn; repeat split; reflexivity]).
+Qed.
+
+(* the return code of an op that runs to completion is 0 or 1 *)
+Definition RX (r : ms + ms) : Prop := match r with inl y => x_ret y <= 1 | inr _ => True end.
+Lemma RX_ctick x : x_ret x <= 1 -> RX (ctick x).
+Proof. intros H. unfold ctick. destruct (x_c x =? 1); cbn; auto. Qed.
+Lemma RX_bind r f : RX r -> (forall y, x_ret y <= 1 -> RX (f y)) -> RX (bind r f).
+Proof. destruct r; cbn; auto. Qed.
+Lemma RX_fold_m {A} (f : A -> ms -> ms + ms) l : (forall a y, x_ret y <= 1 -> RX (f a y)) ->
+  forall x, x_ret x <= 1 -> RX (fold_m f l x).
+Proof.
+  intros Hf. induction l as [|a tl IH]; intros x Hx; cbn; [exact Hx|].
+  pose proof (Hf a x Hx) as H. destruct (f a x); cbn in *; auto.
+Qed.
+Lemma ret_send q a x : x_ret (send q a x) = x_ret x.
+Proof. unfold send. destruct a; reflexivity. Qed.
+Lemma ret_mark b m x : x_ret (mark b m x) = x_ret x.
+Proof. unfold mark. destruct b; reflexivity. Qed.
+
+Lemma RX_process_rec maxr st q dn x : x_ret x <= 1 -> RX (process_rec maxr st q dn x).
+Proof.
+  intros H. unfold process_rec. apply RX_bind; [apply RX_ctick; exact H|]. intros y Hy. cbn.
+  destruct (acked dn q); [exact Hy|]. destruct (find_pend st (x_pend y)); [|exact Hy].
+  destruct (maxr <=? _); exact Hy.
+Qed.
+Lemma RX_do_start s id dn x : x_ret x <= 1 -> RX (do_start s id dn x).
+Proof.
+  intros H. unfold do_start. destruct (find_sess s (x_sess x)); [cbn; lia|].
+  apply RX_bind; [apply RX_ctick; rewrite !ret_mark, ret_send; exact H|]. intros y Hy. apply RX_ctick. exact Hy.
+Qed.
+Lemma RX_do_stop s cause cin cout dn x : x_ret x <= 1 -> RX (do_stop s cause cin cout dn x).
+Proof.
+  intros H. unfold do_stop. destruct (find_sess s (x_sess x)); [|cbn; lia].
+  apply RX_bind; [apply RX_ctick; exact H|]. intros y Hy.
+  apply RX_bind; [apply RX_ctick; rewrite ret_send; exact Hy|]. intros z Hz. apply RX_ctick. rewrite ret_mark. exact Hz.
+Qed.
+Lemma RX_do_interim cin cout dn order x : x_ret x <= 1 -> RX (do_interim cin cout dn order x).
+Proof.
+  intros H. unfold do_interim. apply RX_fold_m; [|exact H]. intros a y Hy. unfold interim_one. apply RX_ctick.
+  destruct (acked dn _); cbn; rewrite ?ret_send; exact Hy.
+Qed.
+Lemma RX_do_queue maxr dn x : x_ret x <= 1 -> RX (do_queue maxr dn x).
+Proof. intros H. unfold do_queue. destruct (x_chan x) as [|[st q] tl]; [exact H|]. apply RX_process_rec. exact H. Qed.
+Lemma RX_do_retry maxr dn order x : x_ret x <= 1 -> RX (do_retry maxr dn order x).
+Proof.
+  intros H. unfold do_retry. apply RX_fold_m; [|exact H]. intros a y Hy. unfold retry_one. apply RX_process_rec.
+  rewrite ret_mark. exact Hy.
+Qed.
+
+Lemma JS_enter s ss : JS s ss -> MX (st_maxr s) ss (enter s 0).
+Proof. intros (_ & _ & Hm). split; [exact Hm|reflexivity]. Qed.
+
+Lemma M_pre maxr pend chan stamp ss o r : M maxr pend chan stamp ss -> M maxr pend chan stamp (pre ss o r).
+Proof. destruct (pre_counts ss o r) as (E1 & E2 & E3 & _). apply M_same; auto. Qed.
+
+(* an op that ran to completion (inl y), seen from the state level *)
+Lemma leave_cf s ss o y :
+  (match o with Stop _ _ _ _ _ _ | GracefulStop _ _ _ _ _ => False | _ => True end) ->
+  st_alive s = true -> ss_maxr ss = st_maxr s -> x_ret y <= 1 ->
+  MX (st_maxr s) (pre ss o (snd (fst (leave s false (inl y))))) y ->
+  JS (fst (fst (leave s false (inl y)))) (supd ss o (snd (fst (leave s false (inl y))))).
+Proof.
+  intros Ho Ea Em Hr [Hm Hc]. cbn [leave fst snd] in *.
+  set (s' := mkSt (st_maxr s) true (x_sess y) (x_pend y) (x_chan y) (x_files y) (x_pjson y) (x_stamp y)) in *.
+  set (r := view (x_ret y) (x_ev y) s') in *.
+  assert (Hd : died o r = false).
+  { unfold died. cbn [o_ret r view]. replace (x_ret y =? R_CRASHED) with false by (unfold R_CRASHED; lia).
+    destruct o; try reflexivity; contradiction. }
+  unfold supd. destruct (post_counts (fold_left ev_upd (o_ev r) (pre ss o r)) o r Hd) as (E1 & E2 & E3 & E4).
+  split; [reflexivity|]. split.
+  - rewrite E3, fold_ev_maxr. destruct (pre_counts ss o r) as (_ & _ & _ & ->). exact Em.
+  - cbn [st_maxr st_pend st_chan st_stamp s']. eapply M_same; [exact E1|exact E2| |exact Hm].
+    rewrite E4. destruct o; try reflexivity; contradiction.
+Qed.
+
+Lemma step_cf s ss o : quiet_op o = true -> JS s ss ->
+  JS (fst (fst (step s o))) (supd ss o (snd (fst (step s o)))) /\ op_ok 4 ss o (snd (fst (step s o))) = true.
+Proof.
+  intros Hq Hj. pose proof Hj as (Ea & Em & Hm).
+  assert (Hok : forall r, match o with Final => False | _ => True end -> op_ok 4 ss o r = true).
+  { intros r Ho. unfold op_ok. rewrite events_ok_4. destruct o; try reflexivity; contradiction. }
+  destruct o; cbn in Hq; try discriminate; try (apply N.eqb_eq in Hq; subst c).
+  - (* Start *)
+    split; [|apply Hok; exact I]. cbn [step]. rewrite Ea.
+    destruct (do_start_cf (st_maxr s) (pre ss (Start s0 id dn 0) (snd (fst (leave s false (do_start s0 id dn (enter s 0))))))
+                s0 id dn (enter s 0)) as (y & Ey & Hy).
+    { split; [apply M_pre; exact Hm|reflexivity]. }
+    pose proof (RX_do_start s0 id dn (enter s 0)) as Hr. rewrite Ey in *. apply leave_cf; auto. apply Hr. cbn. lia.
+  - (* Stop *)
+    split; [|apply Hok; exact I]. cbn [step]. rewrite Ea.
+    pose proof (do_stop_cf (st_maxr s) ss s0 cause cin cout dn (enter s 0) (JS_enter s ss Hj) eq_refl) as Hs.
+    cbn [enter x_sess] in Hs. destruct (find_sess s0 (st_sess s)) as [se0|].
+    + destruct Hs as (y & Ey & Hr & Hc & Eev & Ep & Ech & Est). rewrite Ey. cbn [leave fst snd].
+      set (q := mkQ ST_STOP s0 (s_ident se0) cin cout cause) in *.
+      set (s' := mkSt _ true _ _ _ _ _ _). set (r := view _ _ s').
+      assert (Hd : died (Stop s0 cause cin cout dn 0) r = false).
+      { unfold died. cbn [o_ret r view]. rewrite Hr. reflexivity. }
+      unfold supd. destruct (post_counts (fold_left ev_upd (o_ev r) (pre ss (Stop s0 cause cin cout dn 0) r)) _ r Hd) as (E1 & E2 & E3 & E4).
+      split; [reflexivity|]. split.
+      * rewrite E3, fold_ev_maxr. destruct (pre_counts ss (Stop s0 cause cin cout dn 0) r) as (_ & _ & _ & ->). exact Em.
+      * cbn [st_maxr st_pend st_chan st_stamp s']. cbn [o_ev r view] in *. rewrite Eev in *. cbn [enter x_ev app fold_left] in *.
+        pose proof (M_stop_sent (st_maxr s) (st_pend s) (st_chan s) (st_stamp s) (pre ss (Stop s0 cause cin cout dn 0) r) q (acked dn q)
+                      eq_refl (M_pre _ _ _ _ _ _ _ Hm)) as Hs.
+        rewrite Ep, Ech, Est. cbn [enter x_pend x_chan x_stamp].
+        eapply M_same; [| | |exact Hs]; cbn [bump_ended ss_dropstop ss_ackstop ss_ended]; auto.
+        rewrite E4. unfold r. cbn [o_ret view]. rewrite Hr. reflexivity.
+    + rewrite Hs. cbn [leave fst snd set_ret enter x_ret x_ev x_sess x_pend x_chan x_files x_pjson x_stamp].
+      set (s' := mkSt _ true _ _ _ _ _ _). set (r := view _ _ s').
+      assert (Hd : died (Stop s0 cause cin cout dn 0) r = false) by reflexivity.
+      unfold supd. destruct (post_counts (fold_left ev_upd (o_ev r) (pre ss (Stop s0 cause cin cout dn 0) r)) _ r Hd) as (E1 & E2 & E3 & E4).
+      split; [reflexivity|]. split.
+      * rewrite E3, fold_ev_maxr. destruct (pre_counts ss (Stop s0 cause cin cout dn 0) r) as (_ & _ & _ & ->). exact Em.
+      * cbn [st_maxr st_pend st_chan st_stamp s']. eapply M_same; [exact E1|exact E2| |apply M_pre; exact Hm].
+        rewrite E4. reflexivity.
+  - (* InterimTick *)
+    split; [|apply Hok; exact I]. cbn [step]. rewrite Ea.
+    destruct (do_interim_cf (st_maxr s) (pre ss (InterimTick cin cout dn order 0) (snd (fst (leave s false (do_interim cin cout dn order (enter s 0))))))
+                cin cout dn order (enter s 0)) as (y & Ey & Hy).
+    { split; [apply M_pre; exact Hm|reflexivity]. }
+    pose proof (RX_do_interim cin cout dn order (enter s 0)) as Hr. rewrite Ey in *. apply leave_cf; auto. apply Hr. cbn. lia.
+  - (* ProcessQueued *)
+    split; [|apply Hok; exact I]. cbn [step]. rewrite Ea.
+    destruct (do_queue_cf (st_maxr s) (pre ss (ProcessQueued dn 0) (snd (fst (leave s false (do_queue (st_maxr s) dn (enter s 0))))))
+                dn (enter s 0)) as (y & Ey & Hy).
+    { split; [apply M_pre; exact Hm|reflexivity]. }
+    pose proof (RX_do_queue (st_maxr s) dn (enter s 0)) as Hr. rewrite Ey in *. apply leave_cf; auto. apply Hr. cbn. lia.
+  - (* RetryTick *)
+    split; [|apply Hok; exact I]. cbn [step]. rewrite Ea.
+    destruct (do_retry_cf (st_maxr s) (pre ss (RetryTick dn order 0) (snd (fst (leave s false (do_retry (st_maxr s) dn order (enter s 0))))))
+                dn order (enter s 0)) as (y & Ey & Hy).
+    { split; [apply M_pre; exact Hm|reflexivity]. }
+    pose proof (RX_do_retry (st_maxr s) dn order (enter s 0)) as Hr. rewrite Ey in *. apply leave_cf; auto. apply Hr. cbn. lia.
+  - (* Final *)
+    cbn [step fst snd]. split.
+    + split; [exact Ea|]. split; [exact Em|]. eapply M_same; [| | |exact Hm]; reflexivity.
+    + unfold op_ok. cbn. unfold final_ok. apply forallb_forall. intros sid _. unfold owed_ok.
+      destruct Hm as [_ _ _ _ _ H6]. cbn [view o_files o_pjson o_pend]. rewrite stops_in_pview, Em.
+      destruct (H6 sid) as [H|H]; [apply orb_true_iff; left; lia|apply orb_true_iff; right].
+      destruct (existsb _ _); destruct (option_map pview (st_pjson s)); lia.
+Qed.
+
+Theorem holds4_cf : forall ops s ss, crash_free ops = true -> JS s ss -> holds 4 ss (trace_from s ops) = true.
+Proof.
+  induction ops as [|o ops IH]; intros s ss Hc Hj; [reflexivity|].
+  cbn in Hc. apply andb_true_iff in Hc. destruct Hc as [Hq Hc].
+  rewrite trace_from_cons. cbn [holds]. destruct (step_cf s ss o Hq Hj) as [Hj' Hok].
+  rewrite Hok. cbn. apply IH; assumption.
+Qed.
+
+Theorem clause4_partial : forall maxr ops, crash_free ops = true -> holds 4 (sinit maxr) (trace maxr ops) = true.
+Proof.
+  intros maxr ops Hc. apply holds4_cf; [exact Hc|]. split; [reflexivity|]. split; [reflexivity|].
+  constructor; cbn; auto. intros sid. right. cbn. lia.
+Qed.
+
+(* ---------------------------------------------------------------- refutation witnesses *)
+Definition clause (k : N) : Prop := forall maxr ops, holds k (sinit maxr) (trace maxr ops) = true.
+
+Definition I1 : ident := (1, 2, 3).
+(* (1) the Start fails and is queued; the Stop is sent directly and is accepted first *)
+Definition w1 : list op := [Start 1 I1 [(1, 1)] 0; Stop 1 1 7 9 [] 0; ProcessQueued [] 0].
+(* (3) graceful drain leaves sessions/1.json: the restart sends the acknowledged Stop again *)
+Definition w3a : list op := [Start 1 I1 [] 0; GracefulStop 5 6 [] [] 0; Restart [] [] 0].
+(* (3) the record is in the channel and in the retry map: delivered by the scan, sent again from the channel *)
+Definition w3b : list op := [Start 1 I1 [] 0; Stop 1 1 1 2 [(1, 2)] 0; RetryTick [] [] 0; ProcessQueued [] 0].
+(* (4) Stop fails -> queued in memory only, file removed; crash => lost *)
+Definition w4a : list op := [Start 1 I1 [] 0; Stop 1 1 1 2 [(1, 2)] 0; Crash; Final].
+(* (4) crash between the acknowledged Start and the write of the session file *)
+Definition w4b : list op := [Start 1 I1 [] 1; Final].
+(* (4) pending.json (durable after the graceful stop) is deleted on load; crash => lost *)
+Definition w4c : list op :=
+  [Start 1 I1 [] 0; Stop 1 1 1 2 [(1, 2)] 0; GracefulStop 0 0 [] [] 0; Final; Restart [(1, 2)] [] 0; Crash; Final].
+(* (4) the Stop recovered from the session file fails: queued in memory, file removed; crash => lost *)
+Definition w4d : list op := [Start 1 I1 [] 0; Crash; Restart [(1, 2)] [] 0; Crash; Final].
+
+Lemma clause1_refuted : ~ clause 1.
+Proof. intros H. specialize (H 2 w1). vm_compute in H. discriminate. Qed.
+Lemma clause3_refuted_drain : holds 3 (sinit 2) (trace 2 w3a) = false.
+Proof. vm_compute. reflexivity. Qed.
+Lemma clause3_refuted_double : holds 3 (sinit 2) (trace 2 w3b) = false.
+Proof. vm_compute. reflexivity. Qed.
+Lemma clause3_refuted : ~ clause 3.
+Proof. intros H. specialize (H 2 w3a). rewrite clause3_refuted_drain in H. discriminate. Qed.
+Lemma clause4_refuted_volatile_queue : holds 4 (sinit 2) (trace 2 w4a) = false.
+Proof. vm_compute. reflexivity. Qed.
+Lemma clause4_refuted_start_window : holds 4 (sinit 2) (trace 2 w4b) = false.
+Proof. vm_compute. reflexivity. Qed.
+Lemma clause4_refuted_pending_json : holds 4 (sinit 2) (trace 2 (firstn 4 w4c)) = true /\ holds 4 (sinit 2) (trace 2 w4c) = false.
+Proof. split; vm_compute; reflexivity. Qed.
+Lemma clause4_refuted_recovery : holds 4 (sinit 2) (trace 2 w4d) = false.
+Proof. vm_compute. reflexivity. Qed.
+Lemma clause4_refuted : ~ clause 4.
+Proof. intros H. specialize (H 2 w4a). rewrite clause4_refuted_volatile_queue in H. discriminate. Qed.
+
+(* the acceptor the harness runs rejects with clause k only where clause k's check fails *)
+Lemma accept_sound ss o r :
+  match accept ss o r with
+  | inl ss' => ss' = supd ss o r /\ forall k, In k [1; 2; 3; 4; 5; 6] -> op_ok k ss o r = true
+  | inr k => op_ok k ss o r = false
+  end.
+Proof.
+  unfold accept.
+  destruct (op_ok 2 ss o r) eqn:E2; cbn; [|assumption].
+  destruct (op_ok 5 ss o r) eqn:E5; cbn; [|assumption].
+  destruct (op_ok 6 ss o r) eqn:E6; cbn; [|assumption].
+  destruct (op_ok 1 ss o r) eqn:E1; cbn; [|assumption].
+  destruct (op_ok 3 ss o r) eqn:E3; cbn; [|assumption].
+  destruct (op_ok 4 ss o r) eqn:E4; cbn; [|assumption].
+  split; [reflexivity|]. intros k [<-|[<-|[<-|[<-|[<-|[<-|[]]]]]]]; assumption.
 Qed.
